@@ -681,10 +681,12 @@ func genProto(keys int, diff bool) *rapid.Generator[proto] {
 				p.Ops[0].Dt = 100
 			}
 			return p
-		case w < 94:
+		case w < 94 && !diff, w < 93:
 			return proto{Ops: []Op{{Kind: "remove", Key: rapid.IntRange(0, keys-1).Draw(t, "key")}}}
 		case w < 96:
 			return proto{Ops: []Op{{Kind: "clear"}}}
+		case w == 99 && diff:
+			return proto{Ops: genFillClear(t, keys)}
 		default:
 			// a short scripted shape on one key (the rest of the history stays random)
 			return proto{Ops: genMacro(t, rapid.IntRange(0, keys-1).Draw(t, "key"), !diff)}
@@ -737,6 +739,21 @@ func GenMem(t *rapid.T) MemCase {
 		}
 	}
 	return c
+}
+
+// genFillClear (differential only): many keys live under the prefix when Clear
+// runs, then reads and a set-if-absent on the keys placed last and first - the
+// shape that needs the redis-backed Clear to walk every SCAN page.
+func genFillClear(t *rapid.T, keys int) []Op {
+	m := rapid.IntRange(1, keys).Draw(t, "fill")
+	if rapid.Bool().Draw(t, "fill_all") { // half of the time every key; shrinks to the drawn count
+		m = keys
+	}
+	var ops []Op
+	for k := 0; k < m; k++ {
+		ops = append(ops, Op{Kind: "set", Key: k, HasTTL: true, TTL: 10})
+	}
+	return append(ops, Op{Kind: "clear"}, Op{Kind: "get", Key: m - 1}, Op{Kind: "get", Key: 0}, Op{Kind: "set", Key: m - 1, MNE: true})
 }
 
 // genMacro emits one of the 4-step shapes named in the design: a second Set
